@@ -101,7 +101,7 @@ class LazyMap(dict):
 
     def refresh(self, build=False):
         for path, obj, n in self.outlines:
-            rows = list(obj.scenarios) if build else list(obj._scenarios)
+            rows = list(obj.scenarios) if build else _built_rows(obj)
             if build:
                 assert len(rows) == n, "outline %r: %d scenarios for %d rows" % (path, len(rows), n)
             for ri, s in enumerate(rows):
@@ -112,6 +112,21 @@ class LazyMap(dict):
         if key not in self:
             self.refresh()
         return dict.get(self, key, default)
+
+
+def _built_rows(outline):
+    """the row scenarios behave has built SO FAR, without triggering a build. `_scenarios` is the private cache of
+    the present implementation; if a refactoring renames it, any private list attribute holding this outline's row
+    scenarios is taken instead (the harness must not depend on the name)"""
+    rows = getattr(outline, "_scenarios", None)
+    if rows is not None:
+        return list(rows)
+    Scenario = _imp()["Scenario"]
+    for name, value in vars(outline).items():
+        if name.startswith("_") and isinstance(value, (list, tuple)) and value and \
+                all(isinstance(x, Scenario) for x in value):
+            return list(value)
+    return []
 
 
 def map_model(prog, feats, prebuild=False):
